@@ -2,10 +2,12 @@
 request dispatch and reply correlation (C08), message layouts (C19)."""
 F = "rpyc/core/protocol.py::Connection."
 SOCK = "self._channel.stream.sock"
+VCACHE = "global:rpyc.core.vinegar:_generic_exceptions_cache"          # vinegar's module-level cache of stand-in classes
+VCACHE_OK = "generic_cache_ok(module_global('rpyc.core.vinegar', '_generic_exceptions_cache'))"
 # everything a message exchange on this connection may touch (frame of the I/O paths)
 CONN_IO_OK = ["self._send_queue", "self._sendlock.held", SOCK + ".outbuf", SOCK + ".inbuf", "self._seqcounter.nxt",
               "self._local_objects._dict", "self._request_callbacks", "self._closed", "self._last_traceback",
-              "self._proxy_cache._dict", "$refcounts"]
+              "self._proxy_cache._dict", "$refcounts", "$sysmodules", VCACHE]
 # ... plus, when the connection goes down (transport failure, or the peer's close request was served): the teardown
 TEARDOWN = ["self._netref_classes_cache", "self._remote_root", "self._local_root", "self._HANDLERS"]
 CONN_IO_DEAD = CONN_IO_OK + [SOCK, SOCK + ".shut_attempted", SOCK + ".closed", SOCK + ".failed"]
@@ -14,11 +16,20 @@ CONN_IO = CONN_IO_DEAD + TEARDOWN
 MAYBE_DEAD = [{"label": "transport open", "sets": {"self._channel.stream.sock": "old(self._channel.stream.sock)"},
                "modifies": CONN_IO_OK},
               {"label": "transport died", "sets": {"self._channel.stream.sock": "ClosedFile"}, "modifies": CONN_IO_DEAD}]
+# sending only (no incoming message is dispatched): vinegar's cache and the set of imported modules are out of reach
+SEND_OK = [m for m in CONN_IO_OK if m not in ("$sysmodules", VCACHE)]
+MAYBE_DEAD_SEND = [dict(MAYBE_DEAD[0], modifies=SEND_OK),
+                   dict(MAYBE_DEAD[1], modifies=SEND_OK + [SOCK, SOCK + ".shut_attempted", SOCK + ".closed", SOCK + ".failed"])]
 # ... or, on paths that dispatch incoming messages, the whole connection went down (the peer's close request)
 MAYBE_DOWN = [MAYBE_DEAD[0], {"label": "connection down", "sets": {"self._channel.stream.sock": "ClosedFile"}, "modifies": CONN_IO}]
 # class invariant of a connection used throughout: every slot of the table of lent objects is well formed
-TABLE_OK = "all_slots_ok(self._local_objects._dict) and cache_ok(self._proxy_cache._dict, self)"
+TABLE_OK = "all_slots_ok(self._local_objects._dict) and cache_ok(self._proxy_cache._dict, self) and " + VCACHE_OK
 OPEN = [SOCK + " is not ClosedFile", "not %s.failed" % SOCK]
+# type invariant of the configuration entries the exception serializer reads
+EXC_CONFIG = ["haskey(self._config, '%s') and isvbool(self._config['%s'])" % (k, k)
+              for k in ("import_custom_exceptions", "instantiate_custom_exceptions")] + \
+             ["haskey(self._config, 'instantiate_oldstyle_exceptions')", "haskey(self._config, 'include_local_traceback')",
+              "haskey(self._config, 'include_local_version')"]
 P = ["C08", "C12", "C01", "C19"]
 
 
@@ -131,11 +142,11 @@ def register_dispatch(S):
     # (each nested exchange is itself one of the functions under contract), and it leaves the send machinery quiescent.
     CS = "conn._channel.stream.sock"
     RUNS = ["known_handler(handler)", "not is_close_handler(handler)"]
-    HR_MOD = ["conn._last_traceback", "conn._local_objects._dict", "conn._proxy_cache._dict", "$refcounts",
+    HR_MOD = ["conn._last_traceback", "conn._local_objects._dict", "conn._proxy_cache._dict", "$refcounts", "$sysmodules", VCACHE,
               "conn._seqcounter.nxt", "conn._request_callbacks", CS + ".outbuf", CS + ".inbuf"]
     HR_INV = ["implies(old(all_slots_ok(conn._local_objects._dict)), all_slots_ok(conn._local_objects._dict))",
               "implies(old(cache_ok(conn._proxy_cache._dict, conn)), cache_ok(conn._proxy_cache._dict, conn))",
-              "conn._seqcounter.nxt >= old(conn._seqcounter.nxt)"]
+              "conn._seqcounter.nxt >= old(conn._seqcounter.nxt)", "implies(old(%s), %s)" % (VCACHE_OK, VCACHE_OK)]
     HR_DOWN = HR_MOD + ["conn._closed", "conn._netref_classes_cache", "conn._remote_root", "conn._local_root", "conn._HANDLERS",
                         CS + ".shut_attempted", CS + ".closed", CS + ".failed"]
     HR_INV_DOWN = HR_INV + ["implies(not conn._closed, conn._local_root is old(conn._local_root))",
@@ -177,7 +188,8 @@ def register_dispatch(S):
                requires=["plain(seq)", "sized(seq)", "plain(raw_args)", "haskey(self._config, 'logger')",
                          "not self._closed", "not isnone(self._local_root)", TABLE_OK,
                          "haskey(self._config, 'propagate_SystemExit_locally')",
-                         "haskey(self._config, 'propagate_KeyboardInterrupt_locally')"] + OPEN,
+                         "haskey(self._config, 'propagate_KeyboardInterrupt_locally')",
+                         "haskey(self._config, 'include_local_traceback')", "haskey(self._config, 'include_local_version')"] + OPEN,
                ensures={"quiescent_after": ("isnil(self._send_queue.items) and not self._sendlock.held and "
                                             "implies(not self._closed, not isnone(self._local_root)) and " + TABLE_OK,
                                             ["C11", "C08", "C12"]),
@@ -202,7 +214,7 @@ def register_dispatch(S):
                },
                modifies=["self._send_queue", "self._sendlock.held", SOCK + ".outbuf", SOCK + ".inbuf", "self._closed",
                          "self._last_traceback", "self._local_objects._dict", "self._proxy_cache._dict", "$refcounts",
-                         "self._seqcounter.nxt", "self._request_callbacks"])
+                         "self._seqcounter.nxt", "self._request_callbacks", "$sysmodules", VCACHE])
 
     S.contract(F + "_seq_request_callback",
                params={"self": "obj:Connection", "msg": "val", "seq": "val", "is_exc": "bool", "obj": "val"},
@@ -224,16 +236,13 @@ def register_dispatch(S):
 def register_requests(S):
     """issuing requests and routing incoming messages (C08, C15, C01, C19)"""
     P8 = ["C08", "C01", "C19"]
-    S.contract(F + "_unbox_exc", params={"self": "obj:Connection", "raw": "val"}, result="val", trusted=True,
-               note="ASSUMED (vinegar.load not yet under contract): some exception object, or raises",
-               ensures={}, raises={"BaseException": {"props": ["C08"]}}, modifies=[])
     QUIET = {"self._sendlock.held": "False", "self._send_queue.items": "nil()"}
     # ---- incoming: one message, routed by its kind ------------------------------------------------------------
     S.contract(F + "_dispatch", params={"self": "obj:Connection", "data": "val"}, init=QUIET,
                requires=["isbytes(data)", "haskey(self._config, 'logger')", "not self._closed", "not isnone(self._local_root)",
                          TABLE_OK,
                          "haskey(self._config, 'propagate_SystemExit_locally')",
-                         "haskey(self._config, 'propagate_KeyboardInterrupt_locally')"] + OPEN,
+                         "haskey(self._config, 'propagate_KeyboardInterrupt_locally')"] + EXC_CONFIG + OPEN,
                calls={"load": {"behaviour": "safety"}, "_unbox": {"behaviour": "any"}},
                ensures={"quiescent_after": ("isnil(self._send_queue.items) and not self._sendlock.held and "
                                             "implies(not self._closed, not isnone(self._local_root)) and " + TABLE_OK,
@@ -290,13 +299,13 @@ def register_requests(S):
                    "same(self._request_callbacks[callee_result('_get_seq_id', 0)], callback) and "
                    "unchanged_except(self._request_callbacks, callee_result('_get_seq_id', 0))", P8),
                    "send_lock_free": ("not self._sendlock.held", ["C11", "C12"])},
-               raises={"BaseException": {"props": P8 + ["C11"], "variants": MAYBE_DEAD, "state": [
+               raises={"BaseException": {"props": P8 + ["C11"], "variants": MAYBE_DEAD_SEND, "state": [
                    "not self._sendlock.held",
                    # a failed send leaves no callback behind (for every Exception; a BaseException is not caught)
                    "implies(not exc_is(exc, 'Exception') == False, n_callees('_get_seq_id') == 1 and "
                    "not haskey(self._request_callbacks, callee_result('_get_seq_id', 0)) and "
                    "unchanged_except(self._request_callbacks, callee_result('_get_seq_id', 0)))"]}},
-               modifies=CONN_IO_OK)
+               modifies=SEND_OK)
 
 
 def register_api(S):
@@ -321,8 +330,8 @@ def register_api(S):
                    "expiry_iff_timeout_given": (
                    "result._ttl.finite == (not isnone(tmo)) and implies(result._ttl.finite, "
                    "old(now()) + num_of(tmo) <= result._ttl.tmax and result._ttl.tmax <= now() + num_of(tmo))", P)},
-               raises={"BaseException": {"props": P, "variants": [dict(v, modifies=v["modifies"] + ["kwargs"]) for v in MAYBE_DEAD]}},
-               modifies=CONN_IO_OK + ["kwargs"])
+               raises={"BaseException": {"props": P, "variants": [dict(v, modifies=v["modifies"] + ["kwargs"]) for v in MAYBE_DEAD_SEND]}},
+               modifies=SEND_OK + ["kwargs"])
     S.contract(F + "sync_request", params={"self": "obj:Connection", "handler": "val", "args": "vl"}, result="val",
                init={"self._sendlock.held": "False", "self._send_queue.items": "nil()"}, clock=True,
                requires=OPEN + ["plain(handler)", "sized(handler)", TABLE_OK, "haskey(self._config, 'sync_request_timeout')",
